@@ -51,6 +51,23 @@ def fixedNoise [Zero α] [Add α] (stored : Array α) (learned : Option α) (n :
   | none => fixedBase stored n call
   | some s => (fixedBase stored n call).add (homo n s)
 
+/-! Return values of the noise models, used by the *generated* branch structure (`Gen/NoiseModels.lean`). -/
+
+/-- `DiagLinearOperator(noise)` for the call-time `noise` tensor. -/
+def retDiagCall [Zero α] {n : Nat} (call : Option (Fin n → α)) : DMat n n α :=
+  match call with
+  | some ν => DMat.diagonal ν
+  | none => DMat.zero
+
+/-- `DiagLinearOperator(self.noise)` as an `n × n` operator (meaningful when the stored noise has length `n`). -/
+def retDiagStored [Zero α] (stored : Array α) (n : Nat) : DMat n n α :=
+  if h : stored.size = n then DMat.diagonal fun i => stored[i.1]'(by rw [h]; exact i.2) else DMat.zero
+
+/-- `torch.distributions.Normal(loc, sqrt(var)).log_prob(y)` (outside /repo: modelled from its documented
+density), in the same parameterisation as the closed forms below. -/
+def normalLogProb [Add α] [Sub α] [Mul α] [Div α] [Neg α] (log : α → α) (log2pi half : α) (y loc var : α) : α :=
+  -(half * (((y - loc) * (y - loc)) / var + log var + log2pi))
+
 /-- `_GaussianLikelihoodBase.marginal`: `covar + noise_covar`. -/
 def marginal [Add α] {n : Nat} (C R : DMat n n α) : DMat n n α := C.add R
 
